@@ -480,7 +480,7 @@ fn strip(d: &Dev) -> String {
 fn main() {
     main_for(|tier| {
         let thorough = tier == "thorough";
-        let mut o = Opts::new(tier, if thorough { 3 } else { 2 });
+        let mut o = Opts::new(tier, if thorough { 4 } else { 2 });
         o.min_depth = 2;
         o.rule = "histories over {set/remove trusted chain X, Y} and deliveries; a delivery = one of 5 conforming messages (transfer to service-deployed token, to canonical token, with data to an app, remote deploy without/with minter) with ONE deviation from {none, never approved, approved with other payload / id / source address / destination contract, source chain not the hub, source address not the hub address, SendToHub wrapper, outer type 0/1/2/5/255, inner type 2/3/4/5/255, origin never trusted, origin Y (trusted only after set), unknown token, 3 kinds of undecodable recipient/minter bytes, amount words 2^127, 2^128, 2^128+1000, 2^184+7, 2^192+5, 2^255, ff..ff, truncation at every 32-byte word, 3 kinds of trailing bytes, over-custody amount, taken token id, empty name, empty symbol}; delivering the same message twice arises as a path; payloads come from the independent ABI encoder".into();
         (C04 { thorough }, o)
